@@ -245,6 +245,8 @@ class C05(univ.UnivCheck):
                 for gi, name, spec in chunk:  # localise one by one
                     v = self.check_one(name, spec, compact, d, rewrites)
                     c["single_roundtrips"] += 1
+                    for x in v:
+                        x["shard"] = (lo, hi)  # the calls made before this one in the same process (see recheck)
                     out += v
             if len(smp) < 2 and items:
                 smp.append({"group": items[0][1], "point": repr(items[len(items) // 2][2]), "compact": compact,
@@ -271,7 +273,14 @@ class C05(univ.UnivCheck):
         spec, compact, d = rec["input"][:3]
         rewrites = rec["input"][3] if len(rec["input"]) > 3 else 0
         spec = (spec[0], spec[1], dict(spec[2]), dict(spec[3]))
-        return self.check_one("replay", spec, compact, d, rewrites)
+        out = self.check_one("replay", spec, compact, d, rewrites)
+        if not out and rec.get("shard"):
+            # not reproducible in isolation: the codec's answer depended on what was encoded before in the same
+            # process (shared state). Re-run the recorded shard in order - deterministic from a fresh process.
+            lo, hi = rec["shard"]
+            vs, _, _ = self.run_range(lo, hi)
+            out = [v for v in vs if v["signature"] == rec["signature"]][:1]
+        return out
 
 
 def same_point(got, spec):
